@@ -90,6 +90,8 @@ def instances():
     for k in "st":
         out.append(nary("m_at", "MemberATExpression", "blocc/member/member_at.h", k + "i", P09, "ORC_AT", make=mk("MemberATExpression"), slen=3, tus=M("at")))
         out.append(nary("m_count", "MemberCOUNTExpression", "blocc/member/member_count.h", k, P09, "ORC_COUNT", make="new MemberCOUNTExpression(e0)", slen=3, tus=M("count")))
+    out.append(nary("m_concat", "MemberCONCATExpression", "blocc/member/member_concat.h", "si", P09 + ["C10"], "ORC_CONCATC", make=mk("MemberCONCATExpression"), slen=2, tus=M("concat"), stubs=TSTUBS, mutates=True, timeout=600))
+    out.append(nary("m_concat", "MemberCONCATExpression", "blocc/member/member_concat.h", "ss", P09, make=mk("MemberCONCATExpression"), slen=2, tus=M("concat"), stubs=TSTUBS, mutates=True, timeout=600))
     out.append(nary("m_at", "MemberATExpression", "blocc/member/member_at.h", "Ti", P09, "ORC_AT", make=mk("MemberATExpression"), tus=M("at"), stubs=TSTUBS, timeout=600))
     out.append(nary("m_count", "MemberCOUNTExpression", "blocc/member/member_count.h", "T", P09, "ORC_COUNT", make="new MemberCOUNTExpression(e0)", tus=M("count"), stubs=TSTUBS, timeout=3000, tier="thorough"))
     for k2 in "idn":
